@@ -98,6 +98,8 @@ def run_property(prop: str, tier: str, repo: str, overlay=None, *, write_evidenc
     mod = rules_pkg.load(prop)
     ctx = Ctx(prop, project, tier)
     todo = list(mod.RULES)
+    from .rules import wave4
+    todo += wave4.rules_for(prop)
     if tier == "thorough":
         todo += list(getattr(mod, "THOROUGH", []))
     for rid, fn in todo:
